@@ -1029,9 +1029,10 @@ type nativeFn struct {
 }
 
 type fnMeta struct {
-	name   string
-	ext    func(e *Engine, fr *frame, args []value) value
-	isInit bool
+	name         string
+	ext          func(e *Engine, fr *frame, args []value) value
+	isInit       bool
+	modelledRecv bool
 }
 
 func (e *Engine) meta(fn *ssa.Function) *fnMeta {
@@ -1041,6 +1042,14 @@ func (e *Engine) meta(fn *ssa.Function) *fnMeta {
 	m := &fnMeta{name: fn.String()}
 	m.ext = e.ext[m.name]
 	m.isInit = strings.Contains(fn.Name(), "init#")
+	if m.ext == nil && fn.Signature.Recv() != nil {
+		rt := fn.Signature.Recv().Type().String()
+		// a websocket.Conn is a model object (message queues): its real methods would
+		// run on an empty struct, so every method without a model is unsupported
+		if rt == "*"+wsPkg+".Conn" {
+			m.modelledRecv = true
+		}
+	}
 	e.fnMetas[fn] = m
 	return m
 }
@@ -1058,6 +1067,9 @@ func (e *Engine) callFnEnv(fn *ssa.Function, args []value, env []value) value {
 	}
 	if m.isInit {
 		return nil // declared init functions are not run; var initialisers are
+	}
+	if m.modelledRecv {
+		e.end("unsupported", "method of a modelled type without a model: "+name)
 	}
 	if fn.Blocks == nil {
 		e.end("unsupported", "no body: "+name)
